@@ -131,7 +131,8 @@ fn run_sched(args: &[String]) -> i32 {
         if stats.capped {
             configs_capped += 1;
             e.2 += 1;
-        } else if let Some(b) = cfg.bound {
+        } else if let Some(b) = cfg.bound.filter(|b| *b > 0) {
+            // (bound 0 marks the single-schedule observations of the default / unlimited limit)
             let m = max_bound_full.entry(fam.clone()).or_insert(usize::MAX);
             *m = (*m).min(b);
         }
